@@ -352,6 +352,7 @@ def gen_fleet_world(rng: random.Random, n_steps: int) -> Dict[str, Any]:
         o, d = cells[rng.randrange(2)], cells[rng.randrange(2)]
         requests.append({"id": f"r{k+1:02d}", "o": o, "d": d, "dep": rng.randrange(0, dt * n_steps * 3 // 4), "pax": 1,
                          "fleet": rng.choice(["fa", "fb"])})
+    spoil_memberships(requests, rng, True, p=0.15)
     requests.sort(key=lambda r: (r["dep"], r["id"]))
     w = {"name": "fleet", "dt": dt, "start": 0, "end": dt * n_steps, "cancel": 600, "vehicles": vehicles, "requests": requests,
          "stations": stations, "bases": bases, "fleets": fl, "focus": "fleet"}
@@ -596,6 +597,9 @@ def gen_input_world(rng: random.Random, n_steps: int, dt: Optional[int] = None) 
             t = start + ((t - start) // dt) * dt          # exactly on a step boundary
     requests = [r for r in requests if r["dep"] >= 0]
     spoil_memberships(requests, rng, False, p=0.08)
+    if rng.random() < 0.4:
+        for r in requests:
+            r["pool"] = rng.random() < 0.2          # the optional allows_pooling column: "true" in some rows, blank in the others
     requests.sort(key=lambda r: r["dep"])
     mode = rng.choice(["station_id", "station_id", "region_coarse", "region_search", "region_fine"])
     prices: List[Dict[str, Any]] = []
@@ -695,6 +699,8 @@ def gen_match_world(rng: random.Random, n_steps: int) -> Dict[str, Any]:
         preload = preload[:2]
         for r in later:
             r["o"] = lattice[rng.randrange(3)]
+    if rng.random() < 0.25:
+        disp["max_search_radius_km"] = rng.choice([1.0, 0.2])      # a search radius smaller than some vehicle-request distances
     if rng.random() < 0.4:
         # the charging threshold is a different number than the matching threshold (both default to 20 km)
         disp["charging_range_km_threshold"] = rng.choice([5, 35])
